@@ -386,6 +386,26 @@ class PathCtx:
                     status, backend = "discharged", "z3(ground instances)"
                 elif r == z3.sat:
                     weak_model = s2.model()
+                    # further candidates (the native replay decides which one is real): block the truth values of the
+                    # boolean constants of each model found
+                    weak_more = []
+                    try:
+                        cur = weak_model
+                        for _ in range(3):
+                            blk = []
+                            for d in cur.decls():
+                                if d.arity() == 0 and d.range() == z3.BoolSort():
+                                    c = d()
+                                    blk.append(c != cur[d])
+                            if not blk:
+                                break
+                            s2.add(z3.Or(blk))
+                            if s2.check() != z3.sat:
+                                break
+                            cur = s2.model()
+                            weak_more.append(cur)
+                    except z3.Z3Exception:
+                        pass
                 order = [] if status else ["z3"]
             for be in order:
                 if be == "z3":
@@ -441,6 +461,12 @@ class PathCtx:
         ob = Obligation(name, clause_text, status, backend, dt, model, info, path=list(self.log))
         ob.zmodel = zmodel
         self.obligations.append(ob)
+        if status == "refuted" and (info or {}).get("weak") and zmodel is weak_model:
+            for wm in locals().get("weak_more", []):
+                ob2 = Obligation(name, clause_text, status, backend, 0.0, self._model_dict(wm), dict(info),
+                                 path=list(self.log))
+                ob2.zmodel = wm
+                self.obligations.append(ob2)
         if assume_after and status != "refuted":
             self.assume(f)
         return ob
